@@ -284,3 +284,12 @@ where
         self.kktsolver.update_A(A);
     }
 }
+
+// read-only verification accessor
+#[cfg(feature = "verif")]
+impl<T: FloatT> DefaultKKTSystem<T> {
+    /// state of the underlying KKT solver
+    pub fn verif_snapshot(&self) -> crate::verif::KktSnapshot<T> {
+        self.kktsolver.verif_snapshot()
+    }
+}
